@@ -455,6 +455,9 @@ impl Database {
         &self,
         pending_commits: &[std::sync::Arc<super::group_commit::PendingCommit>],
     ) -> Result<()> {
+        #[cfg(kahflane_turdb_verif)]
+        crate::verif::point("commit.flush.begin", &[pending_commits.len() as i64]);
+
         let mut wal_guard = self.shared.wal.lock();
         let wal = wal_guard
             .as_mut()
